@@ -1,7 +1,7 @@
 """C09 — LZ13 compression emits a valid wrapped LZ11 stream; never panics (incl. the empty input)."""
 from mir import fmt, walk, strip_refs, norm, callee_names
 from flow import PathLimit, cond_truth, guards, control_deps
-from lz import Encoder, bitslice, canon, fmt_byte, NotBits
+from lz import Encoder, bitslice, canon, fmt_byte, NotBits, prune
 from c08 import check_header, token_checks, loop_vars
 from c05 import dominating_bounds
 
@@ -85,8 +85,12 @@ def run(facts, rep, ctx):
         slots = [s for s in enc.emissions(p) if not (len(s) > 2 and s[2] == "merge-into-existing")]
         n = len(slots)
         lo, hi = length_interval(classes, L)
+        mx = {"len": (lo, hi), "disp": (1, W)}
         try:
-            got = [canon(*bitslice(s[1], enc.classify)) for s in slots]
+            got = []
+            for s in slots:
+                pl, c = bitslice(s[1], enc.classify)
+                got.append(canon(prune(pl, mx), c))
         except NotBits as e:
             rep.inconc(R2, "token bytes: %s" % e)
             continue
@@ -95,9 +99,9 @@ def run(facts, rep, ctx):
         if n not in seen:
             rep.violation(R2, b.name, "form-missing:" + name, "no branch emits the %s LZ11 form" % name, where)
             continue
-        want = [canon(s[0], s[1]) for s in spec]
         bad = None
         for lo, hi, got in seen[n]:
+            want = [canon(prune(s[0], {"len": (max(lo, flo), min(hi, fhi)), "disp": (1, W)}), s[1]) for s in spec]
             if got != want:
                 bad = "%s form emits [%s], specified [%s]" % (name, "; ".join(fmt_byte(x) for x in got), "; ".join(fmt_byte(x) for x in want))
             elif lo < flo or hi > fhi:
